@@ -46,25 +46,6 @@ Proof.
   destruct d; destruct v as [z|f|b|x|]; try destruct f; destruct py; simpl; intros H; inversion H; auto.
 Qed.
 
-Lemma np_castfail_classes e :
-  CastFail np_pycast np_arrcast e -> e = ValueError \/ e = TypeError \/ e = OverflowError.
-Proof.
-  intros [d [c [H|[src H]]]]; eapply np_cast_classes; exact H.
-Qed.
-
-(* "A single-variable assignment that cannot fit (wrong length or shape -> DimensionError, unknown name -> KeyError,
-   duplicate name -> DuplicateNameError, ...) raises and leaves every series unchanged": every raising
-   single-variable operation whose class is not one of NumPy's three cast classes leaves the whole state unchanged *)
-Theorem failed_single_assignment_np o s s' e :
-  single o -> np_step o s = (s', Raise e) ->
-  e <> ValueError -> e <> TypeError -> e <> OverflowError -> s' = s.
-Proof.
-  intros S H N1 N2 N3.
-  destruct (failed_single_assignment_no_change np_pycast np_arrcast np_infer np_astype_dt np_itemseq_exn o s s' e S H) as [E|C];
-    [exact E|].
-  apply np_castfail_classes in C. destruct C as [C|[C|C]]; contradiction.
-Qed.
-
 (* the NumPy tables of this image satisfy the three hypotheses *)
 Theorem np_no_other_error o s : in_scope (kind s) o -> Inv s -> snd (np_step o s) <> Raise OtherError.
 Proof.
@@ -82,24 +63,17 @@ Example hooks_on_w0 :
   read QDir w0 = (w0, Ret (VNames ["X"; "F"; "_attributes"; "span"; "index"; "_strict"])).
 Proof. vm_compute. repeat split. Qed.
 
-(* ---- kept finding: a failing element cast part-way through NumPy's in-place copy leaves the leading cells written *)
-Definition op_partial : op :=
-  SetItem (KSlice "X" (Some 10%Z) (Some 12%Z) None)
-          (OSeq KList [OScalar (PInt 7); OScalar (PInt 8); OScalar (PFlt FNaN)]).
-
-Theorem partial_write_refuted :
-  exists s o, Inv s /\ single o /\
-    snd (np_step o s) = Raise ValueError /\
-    assoc "X" (vars s) = Some (mkVar DInt [3] [PInt 1; PInt 2; PInt 3]%Z) /\
-    assoc "X" (vars (fst (np_step o s))) = Some (mkVar DInt [3] [PInt 7; PInt 8; PInt 3]%Z).
-Proof.
-  exists w0, op_partial. split; [exact w0_inv|]. split; [exact I|]. vm_compute. repeat split.
-Qed.
-
-(* ... whereas the same values in a fresh array (whole-series assignment of a list) are rejected atomically *)
-Example whole_series_list_is_atomic :
-  np_step (SetAttr "X" (OSeq KList [OScalar (PInt 7); OScalar (PInt 8); OScalar (PFlt FNaN)]) None) w0 = (w0, Raise ValueError).
-Proof. vm_compute. reflexivity. Qed.
+(* ---- the repaired defect (fix 5dde979): an element cast failing part-way through an in-place copy leaves the series as it was *)
+Example in_place_assignments_are_atomic :
+  np_step (SetItem (KSlice "X" (Some 10%Z) (Some 12%Z) None) (OSeq KList [OScalar (PInt 7); OScalar (PInt 8); OScalar (PFlt FNaN)])) w0
+    = (w0, Raise ValueError) /\
+  np_step (SetItem (KSlice "X" (Some 10%Z) (Some 11%Z) None) (OSeq KList [OScalar (PInt 8); OScalar PNone])) w0 = (w0, Raise TypeError) /\
+  np_step (SetAttr "X" (OArr [3] DObj [PInt 7; PInt 8; PNone]%Z) None) w0 = (w0, Raise TypeError) /\
+  np_step (SetAttr "X" (OSeq KList [OScalar (PInt 7); OScalar (PInt 8); OScalar (PFlt FNaN)]) None) w0 = (w0, Raise ValueError) /\
+  (* ... and an assignment that goes through is what it was *)
+  assoc "X" (vars (fst (np_step (SetItem (KSlice "X" (Some 10%Z) (Some 11%Z) None) (OSeq KList [OScalar (PInt 8); OScalar (PInt 9)])) w0)))
+    = Some (mkVar DInt [3] [PInt 8; PInt 9; PInt 3]%Z).
+Proof. vm_compute. repeat split. Qed.
 
 (* ---- the repaired defect (fix 216fc36): obj[name, label] = v with `name` no variable is rejected, also for the names of the
    object's own bookkeeping ('attributes' -> _attributes, 'strict' -> _strict), whatever the label *)
@@ -168,35 +142,22 @@ Qed.
 Definition w_strict : state := fst (np_step (SetAttr "strict" (OScalar (PBool true)) None) w0).
 
 Example strict_hypotheses_satisfiable :
-  strict w_strict = true /\ "Fx" <> "strict" /\ mem "Fx" (index w_strict) = false /\ reg_mem "Fx" (registry w_strict) = false /\
+  strict w_strict = true /\ is_property (kind w_strict) "Fx" = false /\ mem "Fx" (index w_strict) = false /\ reg_mem "Fx" (registry w_strict) = false /\
   np_step (SetAttr "Fx" (OScalar (PInt 1)) (Some "f")) w_strict = (w_strict, Raise AttributeError) /\
   alternatives (Some "f") (row_names w_strict) = ["F"] /\
   (* an existing series and add_variable still work *)
   snd (np_step (SetAttr "F" (OScalar (PInt 1)) None) w_strict) = Ret tt /\
-  snd (np_step (AddVariable "N" (OScalar (PInt 1)) None) w_strict) = Ret tt /\
-  (* and the values setter is blocked too, because 'values' is not a registered attribute yet *)
-  snd (np_step (SetAttr "values" (OScalar (PInt 1)) None) w_strict) = Raise AttributeError.
-Proof. vm_compute. repeat split; intros C; discriminate C. Qed.
+  snd (np_step (AddVariable "N" (OScalar (PInt 1)) None) w_strict) = Ret tt.
+Proof. vm_compute. repeat split. Qed.
 
-(* ---- kept finding: under strict=True the `values` replacement is refused by the new-attribute guard (the same operation
-   succeeds on the same series when strict is off), although no attribute would be created *)
-Theorem strict_values_setter_blocked_refuted :
-  exists s v, Inv s /\ strict s = true /\ mem "values" (index s) = false /\
-    np_step (SetAttr "values" v None) s = (s, Raise AttributeError) /\
-    snd (np_step (SetAttr "values" v None) (set_strict s false)) = Ret tt.
-Proof.
-  exists w_strict, (OScalar (PInt 5)). split; [|vm_compute; repeat split].
-  apply step_preserves_inv; [vm_compute; reflexivity|exact w0_inv].
-Qed.
-
-(* the hypotheses of values_setter_reached are satisfiable: strict off, or strict on after 'values' has been registered *)
-Example values_setter_reached_instances :
-  let s1 := fst (np_step (SetAttr "values" (OScalar (PInt 5)) None) w0) in
-  let s2 := fst (np_step (SetAttr "strict" (OScalar (PBool true)) None) s1) in
-  strict w0 = false /\ mem "values" (index w0) = false /\
-  strict s2 = true /\ reg_mem "values" (registry s2) = true /\
-  snd (np_step (SetAttr "values" (OScalar (PInt 6)) None) s2) = Ret tt /\
-  assoc "X" (vars (fst (np_step (SetAttr "values" (OScalar (PInt 6)) None) s2))) = Some (mkVar DInt [3] [PInt 6; PInt 6; PInt 6]%Z).
+(* ---- the repaired defect (fix 49a73ab): with strict=True the `values` replacement works (properties of the class pass the guard);
+   a property without a setter is still refused by Python itself *)
+Example values_setter_works_under_strict :
+  strict w_strict = true /\ reg_mem "values" (registry w_strict) = false /\
+  snd (np_step (SetAttr "values" (OScalar (PInt 6)) None) w_strict) = Ret tt /\
+  assoc "X" (vars (fst (np_step (SetAttr "values" (OScalar (PInt 6)) None) w_strict))) = Some (mkVar DInt [3] [PInt 6; PInt 6; PInt 6]%Z) /\
+  reg_mem "values" (registry (fst (np_step (SetAttr "values" (OScalar (PInt 6)) None) w_strict))) = true /\
+  np_step (SetAttr "size" (OScalar (PInt 6)) None) w_strict = (w_strict, Raise AttributeError).
 Proof. vm_compute. repeat split. Qed.
 
 Example ambiguous_closest_match :
